@@ -2,6 +2,7 @@ mod apps;
 mod common;
 mod frames;
 mod gen;
+mod inject;
 mod net;
 mod rec;
 mod run;
@@ -45,7 +46,7 @@ fn main() {
                         if i >= scenarios.len() {
                             break;
                         }
-                        let ev = run::run(&scenarios[i], run::Hooks::default());
+                        let ev = run::run(&scenarios[i], run::Hooks::for_scenario(&scenarios[i]));
                         results.lock().unwrap().push((i, ev));
                     });
                 }
@@ -60,7 +61,7 @@ fn main() {
         // one <scenario.json> <out.ndjson>
         "one" => {
             let sc: scen::Scenario = serde_json::from_str(&std::fs::read_to_string(&args[1]).unwrap()).unwrap();
-            let ev = run::run(&sc, run::Hooks::default());
+            let ev = run::run(&sc, run::Hooks::for_scenario(&sc));
             let n = write_events(&args[2], &[ev]);
             json!({"runs": 1, "events": n})
         }
